@@ -359,12 +359,75 @@ fn apply_op(builder: &mut FnGraphBuilder<Fun>, op: &Op, f_count: &mut usize) -> 
     }
 }
 
+/// `add_fns` with a const-generic array of 2..=4 functions; one result token per function.
+fn apply_add_fns(builder: &mut FnGraphBuilder<Fun>, run: &[Op], f_count: &mut usize) -> Vec<String> {
+    let mut funs = Vec::with_capacity(run.len());
+    for op in run {
+        if let Op::F { fid, rd, wr } = op {
+            funs.push(Fun {
+                idx: *f_count,
+                fid: *fid,
+                rd: rd.clone(),
+                wr: wr.clone(),
+            });
+            *f_count += 1;
+        }
+    }
+    macro_rules! go {
+        ($n:literal) => {{
+            let arr: [Fun; $n] = match funs.try_into() {
+                Ok(a) => a,
+                Err(_) => panic!("harness: run length was matched just before"),
+            };
+            builder
+                .add_fns(arr)
+                .iter()
+                .map(|id| format!("f{}", id.index()))
+                .collect()
+        }};
+    }
+    match funs.len() {
+        2 => go!(2),
+        3 => go!(3),
+        4 => go!(4),
+        n => panic!("harness: unsupported add_fns length {n}"),
+    }
+}
+
 /// Runs the ops against a fresh `FnGraphBuilder`, then `build()`.
 pub fn build_ops(ops: &[Op]) -> Built {
     let mut builder = FnGraphBuilder::<Fun>::new();
     let mut r = Vec::with_capacity(ops.len());
     let mut f_count = 0usize;
-    for op in ops {
+    let mut k = 0usize;
+    while k < ops.len() {
+        // `add_fns`: a run of 2..=4 consecutive `F` ops whose first fid is even is added with one
+        // `add_fns([..])` call (same ids expected as from that many `add_fn` calls).
+        let run = ops[k..]
+            .iter()
+            .take(4)
+            .take_while(|o| matches!(o, Op::F { .. }))
+            .count();
+        let first_even = matches!(&ops[k], Op::F { fid, .. } if fid % 2 == 0);
+        if run >= 2 && first_even {
+            let res = catch_unwind(AssertUnwindSafe(|| {
+                apply_add_fns(&mut builder, &ops[k..k + run], &mut f_count)
+            }));
+            match res {
+                Ok(toks) => r.extend(toks),
+                Err(_) => {
+                    r.push("P".to_string());
+                    return Built {
+                        r,
+                        outcome: Outcome::OpPanic,
+                    };
+                }
+            }
+            k += run;
+            continue;
+        }
+        let op = &ops[k];
+        k += 1;
         // Batch lengths are validated by the parser / generators, so a panic here is the library's.
         let res = catch_unwind(AssertUnwindSafe(|| apply_op(&mut builder, op, &mut f_count)));
         match res {
